@@ -304,12 +304,29 @@ def eval_scn(case):
          "components": case["components"], "events": case["events"]}
     options = {"ALLOW_NEGATIVE_SOC": o["ALLOW_NEGATIVE_SOC"], "RESET_NEGATIVE_SOC": o["RESET_NEGATIVE_SOC"],
                "margin": float(F(o["margin"])), "testing": True}
-    with warnings.catch_warnings():
-        warnings.simplefilter("ignore")
-        s = scenario.Scenario(j, ".")
-        buf = io.StringIO()
-        with contextlib.redirect_stdout(buf):
-            s.run("greedy", options)
+    from spice_ev import strategy as st_mod
+    orig_losses = st_mod.Strategy.apply_battery_losses
+    changed_by_step_end = []
+
+    def losses(self):
+        # vehicles carry no self-discharge here and the stations deliver 0 kW: the end-of-step bookkeeping
+        # must leave every vehicle SoC (connected or not, negative or not) as it is
+        before = {vid: v.battery.soc for vid, v in self.world_state.vehicles.items()}
+        r = orig_losses(self)
+        for vid, v in self.world_state.vehicles.items():
+            if v.battery.soc != before[vid]:
+                changed_by_step_end.append((str(self.current_time), vid, before[vid], v.battery.soc))
+        return r
+    st_mod.Strategy.apply_battery_losses = losses
+    try:
+        with warnings.catch_warnings():
+            warnings.simplefilter("ignore")
+            s = scenario.Scenario(j, ".")
+            buf = io.StringIO()
+            with contextlib.redirect_stdout(buf):
+                s.run("greedy", options)
+    finally:
+        st_mod.Strategy.apply_battery_losses = orig_losses
     strat = s.strat
     aborted = "ABORTED" in (strat.description or "")
     vs = strat.world_state.vehicles
@@ -319,6 +336,11 @@ def eval_scn(case):
         evwire.lst(s.negative_soc_tracker.items(),
                    lambda kv: "%s %s" % (kv[0], evwire.lst(kv[1], lambda t: str(evwire.iso_us(t))))))
     viol = []
+    if changed_by_step_end:
+        t, vid, a, b = changed_by_step_end[0]
+        viol.append(("disconnected_const", "C08:soc_changed_without_event",
+                     "end of step %s: SoC of %s changed %r -> %r although nothing was charged and no event "
+                     "occurred (negative SoC is reset only if requested)" % (t, vid, a, b)))
     # property: an error in event processing is latched and stops the run at that step
     times = evwire.sim_times(case)
     if s.negative_soc_tracker and not o["ALLOW_NEGATIVE_SOC"]:
